@@ -211,10 +211,11 @@ def handleCore (op : String) (args : List String) : Option String :=
       | "cast" => some (showBool (castNeedsParentheses e))
       | _ => none
   -- endsprefix <E> : utils.rs expression_ends_with_prefix (atom kinds as in the harness:
-  -- k % 13 in {0,1,2 identifiers, 6 call, 7 field, 8 index} are prefix expressions)
+  -- k % 16 in {0,1,2 identifiers, 6 call, 7 field, 8 index, 13 type instantiation, 15 method call
+  -- with type instantiation} are prefix expressions)
   | "endsprefix", rest =>
     (parseArgE rest).map fun e =>
-      showBool (expressionEndsWithPrefix (fun k => [0, 1, 2, 6, 7, 8].contains (k % 13)) e)
+      showBool (expressionEndsWithPrefix (fun k => [0, 1, 2, 6, 7, 8, 13, 15].contains (k % 16)) e)
   | "brk", [a, b] =>
     match a.toNat?, b.toNat? with
     | some a, some b => some (showBool (shouldBreakWithSpace a b))
